@@ -3,7 +3,9 @@ import Pearl.Proofs.SyncProto
 The sync request protocol with the re-check of /repo bc65670 (`Variant.recheck`): helper lemmas and the ghost wrapper;
 headline theorems at the end of the SyncProto section of `Pearl/Props/C12.lean`.
 
-`Inner::fsyncdata` since bc65670 (src/storage/core.rs):
+`Inner::fsyncdata` as /repo had it for a short while (src/storage/core.rs; AMENDED SINCE: in /repo at bc65670 the guarded
+scope has no early `return` and the re-check follows both non-failing paths - that third reading is
+`Pearl/Proofs/SyncProto3.lean`, `Mode.amended`; the two readings below are its modes `everyExit` / `afterSyncOnly`):
 
     loop {
         if compare_exchange(false, true).is_err() { return Ok(()) }            -- (x1) no re-check
@@ -23,7 +25,8 @@ back to the compare-exchange, as `step` has it.  But it is on ONE exit path only
 succeeded.  `step` with `recheck := true` puts it after EVERY exit (`.release` always leads to `.released`, from where only
 `.recheck` is enabled): after the early return (x2), after a failed sync (x3) and after a lost compare-exchange (x1, not
 reachable with one task).  The wrapper below carries the ghost `afterSync` and has both readings:
-`c = false` is `step v` itself (`gstep_false_st`), `c = true` is the code (re-check after a successful sync only).
+`c = false` is `step v` itself (`gstep_false_st`), `c = true` is the function shown above (re-check after a successful
+sync only).
 -/
 namespace Pearl
 namespace SyncProto
